@@ -143,12 +143,16 @@ let parse_op (o : string) : op =
   | 'c' -> OClear
   | _ -> failwith "BAD-CASE"
 let onat = function None -> "-" | Some k -> soi (int_of_nat k)
-let fmt_out = function
+let fmt_out (o : op) = function
   | RFind r -> onat r
   | RFindA (p, a) -> onat p ^ ":" ^ b01 a
   | RAt None -> "-"
   | RAt (Some (k, p)) -> string_of_z k ^ "." ^ string_of_z p
-  | RInsert (ok, pos, stale) -> b01 ok ^ "@" ^ (if stale then "STALE" else onat pos)
+  | RInsert (ok, pos, stale) ->
+    (* a valid iterator is shown as index=element it points to: the element just inserted *)
+    b01 ok ^ "@" ^ (if stale then "STALE" else match pos, o with
+        | Some i, OInsert (k, p) -> soi (int_of_nat i) ^ "=" ^ string_of_z k ^ "." ^ string_of_z p
+        | _, _ -> onat pos)
   | RRange -> "R"
   | RClear -> "C"
 let parse_out (o : op) (s : string) : out =
@@ -159,7 +163,12 @@ let parse_out (o : op) (s : string) : out =
   | OAt _ -> if s = "-" then RAt None else RAt (Some (parse_kp s))
   | OInsert _ -> (match split_on '@' s with
       | [ok; "STALE"] -> RInsert (ok = "1", None, true)
-      | [ok; p] -> RInsert (ok = "1", nato p, false) | _ -> failwith "out")
+      | [ok; p] ->
+        (match split_on '=' p, o with
+         | [i; e], OInsert what -> if parse_kp e = what then RInsert (ok = "1", nato i, false) else failwith "wrong element"
+         | [i], _ -> RInsert (ok = "1", nato i, false)
+         | _ -> failwith "out")
+      | _ -> failwith "out")
   | OInsertRange _ -> if s = "R" then RRange else failwith "out"
   | OClear -> if s = "C" then RClear else failwith "out"
 
@@ -173,8 +182,8 @@ let presorted_line ctor opws impl =
   let (ms, om) = (match ps_run init ops with
     | None -> ("FAULT", false)
     | Some (_, rs) ->
-      (String.concat "," (List.map (fun ((r, sz), rsz) ->
-           fmt_out r ^ "/" ^ soi (int_of_nat sz) ^ "/" ^ (if hash then "-" else soi (int_of_nat rsz))) rs),
+      (String.concat "," (List.map2 (fun o ((r, sz), rsz) ->
+           fmt_out o r ^ "/" ^ soi (int_of_nat sz) ^ "/" ^ (if hash then "-" else soi (int_of_nat rsz))) ops rs),
        c12_ps_ok l0 ops (List.map (fun ((r, sz), _) -> (r, sz)) rs))) in
   let oi = (try
       let toks = csv impl in
